@@ -131,7 +131,7 @@ _PRUNE = _f(MINP, None, "get_invalid_minima", "get_all_bounds_minima", "get_boun
 _DEPENDS = {
     "C01": _HEF_RUN + _f(HEF, H, "get_smallest_eigenvector") + _BH + _BOX + _PRUNE +
            _f(NEB, N, "run", "find_ts_candidates", "minimise_interpolation", "initial_interpolation"),
-    "C02": _PRUNE + _GRAPH + _f(KTN, K, "add_network") + _f(DISC, None, "get_connectivity_graph") +
+    "C02": _PRUNE + _GRAPH + _f(BATCH, None, "get_batch_positions", "evaluate_batch") + _f(COORD, "StandardCoordinates", "move_to_bounds") + _f(KTN, K, "add_network") + _f(DISC, None, "get_connectivity_graph") +
            _f(ROUGH, None, "roughness_metric") +
            _f(BATCH, None, "select_batch", "generate_batch", "fill_batch", "barrier_batch_selector",
               "topographical_batch_selector", "monotonic_batch_selector", "lowest_batch_selector", "sufficient_barrier",
@@ -141,7 +141,8 @@ _DEPENDS = {
     "C07": _ATOMS + _PERTS + _f(SIM, SS, "test_new_minimum", "is_new_minimum") + _f(MSIM, MS, "centre"),
     "C08": _ATOMS + _PERTS + _f(SIM, SS, "test_new_minimum", "is_new_minimum") + _f(MSIM, MS, "centre"),
     "C11": _f(EXPL, NS, "prepare_connection_attempt"),
-    "C14": _PERTS + _f(MSIM, MS, "optimal_alignment", "align", "permutational_alignment", "rotational_alignment",
+    "C14": _f(NEB, N, "run", "initial_interpolation", "linear_interpolation", "dihedral_interpolation", "update_image_density",
+              "revert_image_density", "minimise_interpolation", "find_ts_candidates") + _HEF_RUN + _PERTS + _f(MSIM, MS, "optimal_alignment", "align", "permutational_alignment", "rotational_alignment",
                        "random_rotation", "generate_pairs", "get_permutable_groups") +
            _f(PAIRS, None, "closest_enumeration", "connect_to_set", "connect_unconnected", "unique_pairs"),
     "C15": _f(HEF, H, "run") + _BOX,
